@@ -574,12 +574,12 @@ mod sealed {
     }
     impl Sealed for HeaderName {
         fn slot(&self) -> Option<usize> {
-            Some(super::slot_of(self.model_idx()))
+            super::slot_of(self, false)
         }
     }
     impl<'a> Sealed for &'a HeaderName {
         fn slot(&self) -> Option<usize> {
-            Some(super::slot_of(self.model_idx()))
+            super::slot_of(self, false)
         }
     }
     impl<'a> Sealed for &'a str {
@@ -631,19 +631,75 @@ impl IntoHeaderName for HeaderName {}
 impl<'a> IntoHeaderName for &'a HeaderName {}
 impl IntoHeaderName for &'static str {}
 
-/// Number of slots: one per standard name plus the interned custom names.
-pub const N_STD: usize = 45;
-pub const NSLOT: usize = N_STD + INTERN_CAP;
+/// Slots. The names http-serve itself reads or writes have FIXED slots (a constant table, so a
+/// lookup or insertion with a constant name is a constant array index under the model checker);
+/// any other name gets one of the NDYN dynamic slots on first use.
+pub const NFIXED: usize = 18;
+pub const NDYN: usize = 6;
+pub const NSLOT: usize = NFIXED + NDYN;
 /// Additional values of names that already have one (multi-valued headers).
 pub const NMORE: usize = 4;
 
-fn slot_of(idx: u16) -> usize {
-    if idx >= CUSTOM_BASE {
-        N_STD + (idx - CUSTOM_BASE) as usize
-    } else {
-        idx as usize
+const FIXED: [HeaderName; NFIXED] = [
+    ACCEPT_RANGES, DATE, LAST_MODIFIED, ETAG, CONTENT_RANGE, CONTENT_LENGTH, CONTENT_TYPE, ALLOW, VARY,
+    CONTENT_ENCODING, CONTENT_LANGUAGE, RANGE, IF_RANGE, IF_MATCH, IF_NONE_MATCH, IF_MODIFIED_SINCE,
+    IF_UNMODIFIED_SINCE, ACCEPT_ENCODING,
+];
+
+const fn fixed_slot(idx: u16) -> usize {
+    // idx values of the standard_headers! table
+    match idx {
+        4 => 0,   // accept-ranges
+        18 => 1,  // date
+        28 => 2,  // last-modified
+        19 => 3,  // etag
+        15 => 4,  // content-range
+        13 => 5,  // content-length
+        16 => 6,  // content-type
+        6 => 7,   // allow
+        41 => 8,  // vary
+        11 => 9,  // content-encoding
+        12 => 10, // content-language
+        31 => 11, // range
+        26 => 12, // if-range
+        23 => 13, // if-match
+        25 => 14, // if-none-match
+        24 => 15, // if-modified-since
+        27 => 16, // if-unmodified-since
+        2 => 17,  // accept-encoding
+        _ => NSLOT,
     }
 }
+
+const NO_NAME: HeaderName = HeaderName { idx: CUSTOM, s: "" };
+static mut DYN_NAMES: [HeaderName; NDYN] = [NO_NAME; NDYN];
+static mut N_DYN: usize = 0;
+
+/// slot of a name; `assign`: give it a dynamic slot if it has none yet
+#[allow(static_mut_refs)]
+fn slot_of(name: &HeaderName, assign: bool) -> Option<usize> {
+    let f = fixed_slot(name.idx);
+    if f < NSLOT {
+        return Some(f);
+    }
+    unsafe {
+        let mut k = 0;
+        while k < NDYN {
+            if k < N_DYN && DYN_NAMES[k].idx == name.idx {
+                return Some(NFIXED + k);
+            }
+            k += 1;
+        }
+        if !assign {
+            return None;
+        }
+        assert!(N_DYN < NDYN, "http model: more than NDYN header names outside the fixed table");
+        DYN_NAMES[N_DYN] = name.clone();
+        N_DYN += 1;
+        Some(NFIXED + N_DYN - 1)
+    }
+}
+
 fn slot_of_str(s: &str) -> Option<usize> {
     // lookups by string are case-insensitive in the real crate; the model lower-cases
     let b = s.as_bytes();
@@ -656,37 +712,37 @@ fn slot_of_str(s: &str) -> Option<usize> {
     }
     let idx = lookup(&low[..b.len()]);
     if idx != CUSTOM {
-        return Some(idx as usize);
+        return slot_of(&HeaderName { idx, s: "" }, false);
     }
     unsafe {
         let mut k = 0;
         while k < INTERN_CAP {
             if k < N_INTERNED && bytes_eq(INTERNED[k].as_bytes(), &low[..b.len()]) {
-                return Some(N_STD + k);
+                return slot_of(&HeaderName { idx: CUSTOM_BASE + k as u16, s: "" }, false);
             }
             k += 1;
         }
     }
     None
 }
+
 #[allow(static_mut_refs)]
-fn name_of_slot(slot: usize) -> HeaderName {
-    if slot < N_STD {
-        HeaderName { idx: slot as u16, s: STANDARD[slot].0 }
+fn name_of_slot(slot: usize) -> &'static HeaderName {
+    if slot < NFIXED {
+        &FIXED_STATIC[slot]
     } else {
-        unsafe { HeaderName { idx: CUSTOM_BASE + (slot - N_STD) as u16, s: INTERNED[slot - N_STD] } }
+        unsafe { &DYN_NAMES[slot - NFIXED] }
     }
 }
+static FIXED_STATIC: [HeaderName; NFIXED] = FIXED;
 
 /// Multimap keyed by header name, iteration in order of first insertion of each name, the
 /// values of one name adjacent (as the real map iterates).
 ///
-/// Storage: one slot per name (the name's index is the array index, so a lookup or an
-/// insertion with a constant name touches a constant array position and needs no scan --
-/// bounded model checkers propagate constants through such accesses but not through
-/// searches over symbolic contents), `order` remembers the order of first insertion, `more`
-/// holds second and further values. No heap. More than NMORE repeated values or more than
-/// INTERN_CAP custom names trip a model-capacity assertion (the real map holds 32768).
+/// Storage: one slot per name (see above), `order` remembers the order of first insertion,
+/// `more` holds second and further values. No heap, no names stored (a slot determines its
+/// name), 24 slots: small values matter -- the model checker copies and compares whole maps.
+/// More than NMORE repeated values or NDYN unusual names trip a model-capacity assertion.
 #[derive(Debug)]
 pub struct HeaderMap<T = HeaderValue> {
     first: [Option<T>; NSLOT],
@@ -694,7 +750,6 @@ pub struct HeaderMap<T = HeaderValue> {
     norder: usize,
     more: [Option<(u8, T)>; NMORE],
     nmore: usize,
-    names: [Option<HeaderName>; NSLOT],
 }
 
 impl HeaderMap<HeaderValue> {
@@ -711,7 +766,6 @@ impl<T> Default for HeaderMap<T> {
             norder: 0,
             more: [const { None }; NMORE],
             nmore: 0,
-            names: [const { None }; NSLOT],
         }
     }
 }
@@ -813,18 +867,19 @@ impl<T> HeaderMap<T> {
     /// Replaces all values of the name; returns the first previous value.
     pub fn insert<K: IntoHeaderName>(&mut self, key: K, val: T) -> Option<T> {
         let name = into_sealed::Sealed::into_name(key);
-        let s = slot_of(name.idx);
+        let s = slot_of(&name, true).unwrap();
         match self.first[s].take() {
             None => {
                 self.first[s] = Some(val);
-                self.names[s] = Some(name);
                 self.order[self.norder] = s as u8;
                 self.norder += 1;
                 None
             }
             Some(old) => {
                 self.first[s] = Some(val);
-                self.drop_more(s);
+                if self.nmore > 0 {
+                    self.drop_more(s);
+                }
                 Some(old)
             }
         }
@@ -833,10 +888,9 @@ impl<T> HeaderMap<T> {
     /// Adds a value; returns true if the name was already present.
     pub fn append<K: IntoHeaderName>(&mut self, key: K, val: T) -> bool {
         let name = into_sealed::Sealed::into_name(key);
-        let s = slot_of(name.idx);
+        let s = slot_of(&name, true).unwrap();
         if self.first[s].is_none() {
             self.first[s] = Some(val);
-            self.names[s] = Some(name);
             self.order[self.norder] = s as u8;
             self.norder += 1;
             false
@@ -851,9 +905,7 @@ impl<T> HeaderMap<T> {
     pub fn remove<K: AsHeaderName>(&mut self, key: K) -> Option<T> {
         let s = sealed::Sealed::slot(&key)?;
         let old = self.first[s].take()?;
-        self.names[s] = None;
         self.drop_more(s);
-        // remove from order
         let mut w = 0;
         let mut i = 0;
         while i < NSLOT {
@@ -890,21 +942,24 @@ impl<'a, T> Iterator for Iter<'a, T> {
     type Item = (&'a HeaderName, &'a T);
     fn next(&mut self) -> Option<Self::Item> {
         let mut guard = 0;
-        while guard < NSLOT + NMORE + 2 {
+        while guard < NMORE + 2 {
             guard += 1;
             if self.oi >= self.map.norder {
                 return None;
             }
             let s = self.map.order[self.oi] as usize;
-            let name = match &self.map.names[s] {
-                Some(n) => n,
-                None => return None,
-            };
+            let name = name_of_slot(s);
             if self.mi == NMORE + 1 {
                 self.mi = 0;
+                if self.map.nmore == 0 {
+                    // common case: single-valued names only
+                    self.oi += 1;
+                    self.mi = NMORE + 1;
+                }
                 if let Some(v) = &self.map.first[s] {
                     return Some((name, v));
                 }
+                continue;
             }
             while self.mi < NMORE {
                 let i = self.mi;
@@ -945,7 +1000,7 @@ impl<'a, T> Iterator for Keys<'a, T> {
         }
         let s = self.map.order[self.oi] as usize;
         self.oi += 1;
-        self.map.names[s].as_ref()
+        Some(name_of_slot(s))
     }
 }
 pub struct GetAll<'a, T> {
@@ -1028,7 +1083,7 @@ impl<T> Iterator for IntoIter<T> {
             if self.mi == NMORE + 1 {
                 self.mi = 0;
                 if let Some(v) = self.map.first[s].take() {
-                    return Some((self.map.names[s].clone(), v));
+                    return Some((Some(name_of_slot(s).clone()), v));
                 }
             }
             while self.mi < NMORE {
@@ -1097,27 +1152,19 @@ impl<T: PartialEq> PartialEq for HeaderMap<T> {
         }
         let mut s = 0;
         while s < NSLOT {
-            let a: Vec<&T> = self.get_all(name_of_slot_checked(self, s)).iter().collect();
-            let b: Vec<&T> = o.get_all(name_of_slot_checked(self, s)).iter().collect();
-            if a != b {
+            if self.first[s] != o.first[s] {
                 return false;
             }
             s += 1;
         }
-        true
-    }
-}
-fn name_of_slot_checked<T>(m: &HeaderMap<T>, s: usize) -> HeaderName {
-    match &m.names[s] {
-        Some(n) => n.clone(),
-        None => {
-            if s < N_STD {
-                name_of_slot(s)
-            } else {
-                // an unused custom slot: any name that is in neither map
-                HeaderName { idx: CUSTOM_BASE + (s - N_STD) as u16, s: "" }
+        let mut i = 0;
+        while i < NMORE {
+            if self.more[i] != o.more[i] {
+                return false;
             }
+            i += 1;
         }
+        true
     }
 }
 impl<K: AsHeaderName, T> std::ops::Index<K> for HeaderMap<T> {
